@@ -410,6 +410,30 @@ func checkC08(c *core.Ctx) {
 			c.Internal("small schema does not load: %s %s", l.Err, crash)
 		}
 	}
+	// small-scope exhaustive values at every kind of input position (c08small.go)
+	if os.Getenv("VERIF_C08_NOSMALL") == "" {
+		if l, vs, crash := loadReal([]*ast.Source{{Name: "values.graphql", Input: valueSDL}}); crash == "" && l.OK {
+			var docs []docCase
+			for _, q := range smallValueDocs(c.Thorough()) {
+				docs = append(docs, docCase{text: q, intent: "small-scope"})
+			}
+			c.SetExtra("small_scope_value_documents", len(docs))
+			_, _, ok := validateBatch(c, devs, vs, valueSDL, docs, func(dc docCase, o valObs, class string, spec, real []string) {
+				if class == "crash" {
+					c.Violation(fmt.Sprintf("Validate crashed: %s on %q (value schema)", o.Crash, dc.text), map[string]any{"sdl": valueSDL, "query": dc.text, "crash": o.Crash})
+					return
+				}
+				c.Violation(fmt.Sprintf("%s [small scope, values]: specification finds violated rules %v, validator reported %v: %q (value schema)", class, spec, real, dc.text),
+					map[string]any{"sdl": valueSDL, "query": dc.text, "what": class, "spec_rules": spec, "real_rules": real, "errors": fmt.Sprint(o.Errs)})
+			})
+			if !ok {
+				return
+			}
+			c.Logf("small scope (values): every literal up to the bound at 16 kinds of input position x every declaration of its variable: %d documents decided by Rules.tla", len(docs))
+		} else {
+			c.Internal("value schema does not load: %s %s", l.Err, crash)
+		}
+	}
 	c.SetExtra("generator_intent_disagreements", intentBad)
 	if intentBad > 0 && c.NumViolations() == 0 {
 		c.Diagnostic("generator intent disagrees with specification AND validator on %d documents (see intent_* in the evidence): the generator is the weakest of the three witnesses, so this is no verdict", intentBad)
